@@ -57,15 +57,29 @@ CHECKS = {
           "and the split model are compared with the implementation inside "
           "Coq on exhaustive small graphs and random graphs. Betweenness "
           "family, spreading, eigenvector centrality: no term, direct "
-          "split-vs-original comparison on the implementation only (partial).",
-  "design_ref": "DESIGN.md section 5, C02",
-  "note": "trusted: that each measure term is the code's formula is "
+          "split-vs-original comparison on the implementation only (partial). "
+          "Tie to the source by translation: translate/py_nsi_terms.py (an "
+          "abstract interpreter over the Python ast of core/network.py that "
+          "resolves `*` the way scipy.sparse / numpy do for the operand types) "
+          "regenerates on every run the expression each of 32 algebraic n.s.i. "
+          "measure configurations computes, as a term of a sparse-matrix "
+          "algebra (Model/MatAlg.v); Proofs/MatAlgGen.v proves each one "
+          "denotes its catalogue term (incl. the uncorrected clustering "
+          "formula for symmetric loop-free A) and hence is itself invariant "
+          "under node splitting with positive weights and 0 < p < 1.",
+  "design_ref": "DESIGN.md section 5, C02; section 10.2",
+  "note": "trusted: for the path-length, cross/internal and keyed-cube-root "
+          "measures that each measure term is the code's formula is "
           "established by correspondence (vm_compute vs implementation, "
-          "rtol 1e-9), not by proof; true graph distance = bounded "
+          "rtol 1e-9), not by proof; the algebraic measures of Network are "
+          "tied by the translator py_nsi_terms.py (trusted: its typing of "
+          "`*`, .diagonal(), .sum(), np.repeat, np.maximum; x/0 = 0 stands "
+          "for nan/inf); true graph distance = bounded "
           "reachability for bound >= N is validated by correspondence; "
           "igraph distances; float evaluation",
   "technique": "Coq proof: pullback theorem by structural induction + "
-               "split_is_pullback; vm_compute correspondence of measure terms",
+               "split_is_pullback + regenerated source expressions denote the "
+               "terms; vm_compute correspondence of measure terms",
  },
  "C04": {
   "text": "Theorems (all graphs, weights, attributes, groups, all "
@@ -81,8 +95,12 @@ CHECKS = {
           "of Network found by reflection, InteractingNetworks node-list "
           "methods, ResNetwork measures) are checked directly on the "
           "implementation against rebuilt renumbered objects (partial: no "
-          "theorem for igraph-backed, spectral, resistive measures).",
-  "design_ref": "DESIGN.md section 5, C04",
+          "theorem for igraph-backed, spectral, resistive measures). The "
+          "expressions core/network.py computes for its algebraic n.s.i. "
+          "measures, regenerated on every run (Gen/NsiTerms.v), are proved to "
+          "be permuted with the nodes (per node / per pair) or unchanged "
+          "(global).",
+  "design_ref": "DESIGN.md section 5, C04; section 10.2",
   "note": "trusted: measure terms = code by correspondence (C02); "
           "independence of the removed row/column in Newman betweenness and "
           "of eigenvector normalisation is checked numerically only",
